@@ -20,10 +20,19 @@ theorem convertOperand_pure (st : Store) (f : Int) (v : Operand) :
     (convertOperand false st f v).1 = st := by
   cases v <;> simp [convertOperand]
 
-/-- the values read do not depend on the flag (only the side effect does) -/
-theorem convertOperand_values (b : Bool) (st : Store) (f : Int) (v : Operand) :
+/-- the values read do not depend on the flag (only the side effect does) — for an int32 array as
+long as the scaled values fit into int32 (the unrepaired in-place product wrapped inside the buffer) -/
+theorem convertOperand_values (b : Bool) (st : Store) (f : Int) (v : Operand)
+    (h32 : ∀ id, v = .arr32 id → ∀ e ∈ aget st id, wrap32 (e * f) = e * f) :
     (convertOperand b st f v).2 = (convertOperand false st f v).2 := by
-  cases v <;> simp [convertOperand]
+  cases v with
+  | arr32 id =>
+    cases b
+    · rfl
+    · have : (aget st id).map (wrap32 ∘ fun x => x * f) = (aget st id).map (· * f) :=
+        List.map_congr_left fun e he => h32 id rfl e he
+      simp [convertOperand, this]
+  | _ => simp [convertOperand]
 
 /-- `binop_preserves_operands`: `+ - r+ r- < <= > >= ==` on a time object leave every operand
 kind (python scalar, list, int64 array, time object) — and every other caller-owned array —
@@ -63,10 +72,7 @@ theorem checkUniform_preserves_operand (st : Store) (u : TimeUnit) (v : Operand)
   have hst : ∀ cfg : Cfg, (checkUniform cfg st u v).1
       = (convertOperand cfg.uniformInPlace st (C17.factorOf u) v).1 := by
     intro cfg
-    simp only [checkUniform]
-    split_ifs
-    · rfl
-    · split <;> rfl
+    cases v <;> simp only [checkUniform] <;> (try split_ifs) <;> (try rfl) <;> (split <;> rfl)
   rw [hst]
   exact convertOperand_pure st _ v
 
@@ -85,6 +91,15 @@ theorem checkUniform_result (st : Store) (u : TimeUnit) (id : Nat) :
   simp only [checkUniform, fixed, convertOperand, Bool.false_eq_true, if_false]
   generalize (aget st id).map (· * C17.factorOf u) = vals
   rcases vals with _ | ⟨a, _ | ⟨b, l⟩⟩ <;> rfl
+
+/-- the same for a float64 operand: scaled in binary64 without rounding, differences compared as
+floats (so `[0.0, 0.1, 0.2, 0.3]` hours is uniform or not exactly as numpy sees it) -/
+theorem checkUniform_result_float64 (st : Store) (u : TimeUnit) (id : Nat) :
+    (checkUniform fixed st u (.arrF id)).2 =
+      (match (aget st id).map (f64Scale (C17.factorOf u)) with
+        | [] => .error .valueError
+        | [_] => .ok 0
+        | prods => rampStepQ prods) := rfl
 
 /-! ### `periodogram_csd` -/
 
@@ -225,6 +240,223 @@ theorem copy_shares_nothing_mutable_axis {s : C17.State} (h : C17.Props.Inv s) :
   · intro op a ha
     exact (C17.Props.originals_untouched h op a ha).2
 
+/-! ### operand dtypes: int32 and float64 arrays (`_convert_if_needed` after 38397b6)
+
+`binop_preserves_operands`, `setItem_preserves_operand` and `checkUniform_preserves_operand` above
+quantify over every `Operand`, hence over the int32 and float64 array kinds too; the statements
+below spell the dtype dispatch out. -/
+
+/-- the dispatch `issubclass(val.dtype.type, np.integer)`: an int32 array goes through the same
+branch as an int64 array (`astype(int64) * factor`, no wrap-around inside int32) … -/
+theorem convert_int32_as_int64 (st : Store) (f : Int) (id : Nat) :
+    (convertOperand false st f (.arr32 id)).2 = (convertOperand false st f (.arr64 id)).2 := rfl
+
+/-- … and a float64 array through `(val * factor).round().astype(int64)`, element by element the
+C01 conversion of a bare float (so C01's nearest-picosecond theorems apply to the values read) -/
+theorem convert_float64_as_C01 (st : Store) (f : Nat) (id : Nat) :
+    (convertOperand false st (f : Int) (.arrF id)).2
+      = ((aget st id).map (fun b => C01.toPsF f (.flt (f64Of b))), false) := by
+  simp [convertOperand, f64Scale, C01.toPsF, Function.comp_def]
+
+/-- `binop_preserves_operands` for the int32 / float64 operand kinds, success or error, every
+operator: the caller's buffer (elements resp. IEEE bit patterns) and every other array are unchanged -/
+theorem binop_preserves_int32_float64 (cfg : Cfg) (h : cfg.binopInPlace = false) (st : Store)
+    (self : C01.TVal) (op : BinOp) (id : Nat) :
+    (binop cfg st self op (.arr32 id)).1 = st ∧ (binop cfg st self op (.arrF id)).1 = st :=
+  ⟨binop_preserves_operands cfg h st self op _, binop_preserves_operands cfg h st self op _⟩
+
+/-- the same for element assignment and for the operand of `UniformTime += / -=` -/
+theorem setItem_checkUniform_preserve_int32_float64 (st : Store) (self : C01.TVal) (a b : Nat)
+    (u : TimeUnit) (id : Nat) :
+    (setItem fixed st self a b (.arr32 id)).1 = st ∧ (setItem fixed st self a b (.arrF id)).1 = st ∧
+    (checkUniform fixed st u (.arr32 id)).1 = st ∧ (checkUniform fixed st u (.arrF id)).1 = st :=
+  ⟨setItem_preserves_operand _ _ _ _ _, setItem_preserves_operand _ _ _ _ _,
+   checkUniform_preserves_operand _ _ _, checkUniform_preserves_operand _ _ _⟩
+
+/-- the result of an operator with an int32 operand is the result with the same values as int64 -/
+theorem binop_int32_result (cfg : Cfg) (st : Store) (self : C01.TVal) (op : BinOp) (id : Nat) :
+    (binop cfg st self op (.arr32 id)).2 = (binop cfg st self op (.arr64 id)).2 := rfl
+
+/-- before commit 38397b6 `t + arr` scaled an int32 operand inside its buffer (wrapping at 2^31:
+3 000 000 × 1000 = 3·10⁹ ↦ −1 294 967 296) and left the products in a float64 operand
+(1.5 ↦ 1500.0, bit patterns 0x3FF8… ↦ 0x4097 7000 …) -/
+theorem binop_before_dtype_counterexample :
+    (binop beforeFirstRepair [[1, 3000000]] ⟨[5, 5], .ns, false⟩ (.ar .add) (.arr32 0)).1
+      = [[1000, -1294967296]] ∧
+    (binop beforeFirstRepair [[0x3FF8000000000000]] ⟨[5], .ns, false⟩ (.ar .add) (.arrF 0)).1
+      = [[0x4097700000000000]] ∧
+    (binop fixed [[0x3FF8000000000000]] ⟨[5], .ns, false⟩ (.ar .add) (.arrF 0))
+      = ([[0x3FF8000000000000]], .time ⟨[1505], .ns, false⟩) := by
+  refine ⟨by decide +kernel, by decide +kernel, by decide +kernel⟩
+
+/-! ### `remove_bias` / `crosscov`: the preprocessing chain never writes to an argument buffer -/
+
+/-- `st'` extends `st`: nothing that existed was modified (new buffers may have been appended) -/
+def Ext (st st' : QStore) : Prop :=
+  st.length ≤ st'.length ∧ ∀ i, i < st.length → qget st' i = qget st i
+
+theorem Ext.refl (st : QStore) : Ext st st := ⟨Nat.le_refl _, fun _ _ => rfl⟩
+
+theorem Ext.trans {a b c : QStore} (h1 : Ext a b) (h2 : Ext b c) : Ext a c :=
+  ⟨Nat.le_trans h1.1 h2.1, fun i hi => (h2.2 i (Nat.lt_of_lt_of_le hi h1.1)).trans (h1.2 i hi)⟩
+
+theorem Ext.append (st l : QStore) : Ext st (st ++ l) :=
+  ⟨by simp, fun i hi => by simp [qget, List.getD, List.getElem?_append_left hi]⟩
+
+/-- overwriting a buffer that did not exist in `st` keeps `st` intact -/
+theorem Ext.set_new {st st' : QStore} (h : Ext st st') (j : Nat) (hj : st.length ≤ j) (v : List Rat) :
+    Ext st (st'.set j v) :=
+  ⟨by simpa using h.1, fun i hi => by
+    have hne : j ≠ i := by omega
+    simpa [qget, List.getD, List.getElem?_set_ne hne] using h.2 i hi⟩
+
+/-- `remove_bias` never writes: whatever it returns (new array or, with the short cut, its argument),
+every existing buffer is as it was — this is why the short cut alone is harmless -/
+theorem removeBias_ext (cfg : ChainCfg) (st : QStore) (x : Nat) : Ext st (removeBias cfg st x).1 := by
+  simp only [removeBias]
+  split_ifs
+  · exact Ext.refl st
+  · exact Ext.append st _
+
+/-- without the short cut the result of `remove_bias` is a new buffer -/
+theorem removeBias_fresh (cfg : ChainCfg) (h : cfg.rbReturnsArg = false) (st : QStore) (x : Nat) :
+    (removeBias cfg st x).2 = st.length ∧ (removeBias cfg st x).1 = st ++ [(qget st x).map (· - qmean (qget st x))] := by
+  simp [removeBias, h]
+
+/-- with it, a centred signal comes back as the very buffer that was passed in -/
+theorem removeBias_shortcut_aliases (st : QStore) (x : Nat) (h : qmean (qget st x) = 0) :
+    removeBias ⟨true, false⟩ st x = (st, x) := by
+  simp [removeBias, h]
+
+theorem debiasStep_ext (cfg : ChainCfg) (st : QStore) (x : Nat) (d : Bool) : Ext st (debiasStep cfg st x d).1 := by
+  cases d
+  · exact Ext.refl st
+  · exact removeBias_ext cfg st x
+
+theorem debiasStep_fresh (cfg : ChainCfg) (h : cfg.rbReturnsArg = false) (st : QStore) (x : Nat) :
+    (debiasStep cfg st x true).2 = st.length := (removeBias_fresh cfg h st x).1
+
+/-- the in-place division of the de-meaned `x` leaves the caller's buffers alone as long as the
+de-meaned `x` is a buffer of its own (id beyond the caller's store) -/
+theorem normInXStep_ext {st0 st : QStore} (h : Ext st0 st) (inX : Bool) (x1 n : Nat)
+    (hx : inX = true → st0.length ≤ x1) : Ext st0 (normInXStep inX st x1 n) := by
+  cases inX
+  · exact h
+  · exact Ext.set_new h x1 (hx rfl) _
+
+theorem convStep_ext (st : QStore) (x1 y1 n : Nat) (d : Bool) : Ext st (convStep st x1 y1 n d) :=
+  Ext.append st _
+
+/-- **the chain never writes to an argument buffer**: for every configuration in which NOT BOTH
+short cuts are present (`remove_bias` handing back its argument, `crosscov` dividing the
+de-meaned `x` in place) — in particular for each short cut alone — `crosscov(x, y, …)` leaves every
+buffer of the caller (x, y and anything else) exactly as it was, for all inputs, all flag
+combinations, whether it returns or raises, and its result lives in a new buffer -/
+theorem crosscov_preserves_args (cfg : ChainCfg) (h : cfg.rbReturnsArg = false ∨ cfg.normalizeInX = false)
+    (st : QStore) (x y : Nat) (allLags debias normalize : Bool) :
+    Ext st (crosscov cfg st x y allLags debias normalize).1 ∧
+    ∀ r v, (crosscov cfg st x y allLags debias normalize).2 = some (r, v) → st.length ≤ r := by
+  unfold crosscov
+  by_cases hl : (qget st x).length ≠ (qget st y).length
+  · rw [if_pos hl]
+    exact ⟨Ext.refl st, fun _ _ h => by cases h⟩
+  · rw [if_neg hl]
+    have e1 := debiasStep_ext cfg st x debias
+    have e2 := Ext.trans e1 (debiasStep_ext cfg (debiasStep cfg st x debias).1 y debias)
+    have e3 : Ext st (normInXStep (cfg.normalizeInX && debias && normalize)
+        (debiasStep cfg (debiasStep cfg st x debias).1 y debias).1 (debiasStep cfg st x debias).2
+        (qget st x).length) := by
+      apply normInXStep_ext e2
+      intro hin
+      simp only [Bool.and_eq_true] at hin
+      obtain ⟨⟨hn, hd⟩, -⟩ := hin
+      rcases h with h | h
+      · subst hd
+        rw [debiasStep_fresh cfg h]
+      · rw [h] at hn; cases hn
+    refine ⟨Ext.trans e3 (convStep_ext _ _ _ _ _), ?_⟩
+    intro r v hr
+    simp only [Option.some.injEq, Prod.mk.injEq] at hr
+    rw [← hr.1]
+    exact e3.1
+
+/-- the source as it stands (switches read off the translator's alias table): `remove_bias` returns a
+fresh array and `crosscov` writes to nothing that may be an argument; both routines are in the table -/
+theorem source_chain_safe :
+    (sourceChain.rbReturnsArg = false ∨ sourceChain.normalizeInX = false) ∧
+    known "utils" "remove_bias" = true ∧ known "utils" "crosscov" = true := by decide +kernel
+
+theorem source_chain_is_fixed : sourceChain = chainFixed := by decide +kernel
+
+/-- … hence `crosscov` as written leaves its arguments unchanged -/
+theorem crosscov_source_preserves_args (st : QStore) (x y : Nat) (allLags debias normalize : Bool) :
+    Ext st (crosscov sourceChain st x y allLags debias normalize).1 :=
+  (crosscov_preserves_args sourceChain source_chain_safe.1 st x y allLags debias normalize).1
+
+/-- both short cuts together: `crosscov(x, y)` with a centred `x` divides the caller's `x` by N
+(and the answer of a second identical call is different) -/
+theorem crosscov_both_shortcuts_counterexample :
+    (crosscov ⟨true, true⟩ [[1, -1], [3, -3]] 0 1 false true true).1.getD 0 [] = [1/2, -1/2] ∧
+    (crosscov chainFixed [[1, -1], [3, -3]] 0 1 false true true).1.take 2 = [[1, -1], [3, -3]] ∧
+    (crosscov ⟨true, true⟩ [[1, -1], [3, -3]] 0 1 false true true).2.map (·.2) = some [3, -3/2] ∧
+    (crosscov ⟨true, true⟩ [[1/2, -1/2], [3, -3]] 0 1 false true true).2.map (·.2) = some [3/2, -3/4] := by
+  refine ⟨by decide +kernel, by decide +kernel, by decide +kernel, by decide +kernel⟩
+
+/-- a second identical call sees the same inputs: with the arguments preserved, the store restricted
+to the caller's buffers after the first call is the store before it -/
+theorem crosscov_second_call_sees_same_inputs (cfg : ChainCfg)
+    (h : cfg.rbReturnsArg = false ∨ cfg.normalizeInX = false) (st : QStore) (x y : Nat)
+    (hx : x < st.length) (hy : y < st.length) (a d n : Bool) :
+    qget (crosscov cfg st x y a d n).1 x = qget st x ∧ qget (crosscov cfg st x y a d n).1 y = qget st y :=
+  ⟨(crosscov_preserves_args cfg h st x y a d n).1.2 x hx, (crosscov_preserves_args cfg h st x y a d n).1.2 y hy⟩
+
+/-! ### the alias table of the source: no in-place statement reaches an argument
+
+`Generated.C16Alias.writes` lists EVERY in-place statement (augmented assignment, subscript / slice /
+attribute assignment, `out=`, mutating method, call of a routine that writes to a parameter) of the
+anchor files with the parameters its target may alias.  Routines documented to work in place
+(property: "entry points that are not documented as in-place") are named here with the parameter
+they may write to. -/
+open Generated.C16Alias in
+/-- (module, function, parameter) documented / designed to be modified in place:
+`normalize_coherence(x, dof, copy=True)` ("copy: Copy or return inplace modified x"),
+`normal_coherence_to_unit(y, dof, out=None)` (writes `y` only when `out` is given),
+`unwrap_phases(a)` ("Changes consecutive jumps …": works on `a`), `fill_diagonal(a, val)` (numpy's
+in-place routine), `tridi_inverse_iteration(…, x0=None)` (the optional start vector is the work array) -/
+def inPlaceByContract : List (String × String × String) :=
+  [("utils", "normalize_coherence", "x"), ("utils", "normal_coherence_to_unit", "y"),
+   ("utils", "unwrap_phases", "a"), ("utils", "fill_diagonal", "a"), ("utils", "tridi_inverse_iteration", "x0")]
+
+open Generated.C16Alias in
+def writeOk (w : Write) : Bool :=
+  w.argAliases.all fun p => inPlaceByContract.contains (w.module, w.func, p)
+
+open Generated.C16Alias in
+/-- **no write through an argument alias**: every anchor file parsed, and every in-place statement
+in them targets a fresh object (or `self`), except in the five routines that work in place by
+contract.  A change that makes a routine keep working on (or hand back and later write to) the
+caller's buffer — `x = np.asarray(x); x /= N`, a conditional `return x` followed by an in-place
+step in the caller, `Sk_loc = Sk.reshape(…); Sk_loc /= …`, `s.shape = …` — falsifies this. -/
+theorem no_write_through_argument_alias : parsed = true ∧ writes.all writeOk = true := by
+  decide +kernel
+
+open Generated.C16Alias in
+/-- the routines whose summaries the chain model relies on return fresh arrays and write to no
+parameter: `remove_bias`, `crosscov`, `crosscorr`, `autocov`, `autocorr`, `fftconvolve`,
+`_convert_if_needed`, `_convert_and_check_uniformity`, `periodogram_csd`, `boxcar_filter` -/
+theorem anchor_routines_pure :
+    (fns.filter fun g => (g.module, g.func) ∈
+        [("utils", "remove_bias"), ("utils", "crosscov"), ("utils", "crosscorr"), ("utils", "autocov"),
+         ("utils", "autocorr"), ("utils", "fftconvolve"), ("timeseries", "TimeArray._convert_if_needed"),
+         ("timeseries", "UniformTime._convert_and_check_uniformity"),
+         ("algorithms.spectral", "periodogram_csd"), ("algorithms.filter", "boxcar_filter")]).map
+      (fun g => (g.func, g.returnsAlias, g.writesParams))
+    = [("remove_bias", [], []), ("crosscov", [], []), ("crosscorr", [], []), ("autocov", [], []),
+       ("autocorr", [], []), ("fftconvolve", [], []), ("TimeArray._convert_if_needed", ["val"], []),
+       ("UniformTime._convert_and_check_uniformity", ["val"], []), ("periodogram_csd", [], []),
+       ("boxcar_filter", [], [])] := by
+  decide +kernel
+
 /-! ### the unrepaired sites -/
 /-- `t[0:2] = arr` with `t` in ns multiplies the caller's array by 1000 -/
 theorem setItem_current_counterexample :
@@ -246,6 +478,9 @@ theorem binop_before_counterexample :
 /-! ### non-vacuity -/
 example : (binop current [[1, 2], [7]] ⟨[5, 5], .ns, false⟩ (.ar .add) (.arr64 0))
     = ([[1, 2], [7]], .time ⟨[1005, 2005], .ns, false⟩) := by decide
+
+example : (crosscov chainFixed [[1, -1, 2, -2], [3, 1, -3, -1]] 0 1 false true true).2.map (·.2)
+    = some [-1/2, 5/4, 1, -3/2] := by decide +kernel
 
 example : (seriesArith [[1, 2], [0], [1], [7], [10, 20]] (· + ·) ⟨0, 1, 2, 3, none⟩ 4).1.getD 10 [] = [11, 22] := by
   decide
